@@ -157,12 +157,22 @@ C_PyClass == /\ E.cls.rank = cls.rank /\ E.cls.rankUnamb = cls.rankUnamb /\ E.cl
              /\ E.cls.trG = cls.trG /\ E.cls.lamFloor = cls.lamFloor /\ E.cls.conflictFree = cls.conflictFree
              /\ E.cls.mgdaTie1 = cls.mgdaTie1 /\ E.cls.mgdaGd = cls.mgdaGd
              /\ E.cls.imtlgDegenerate = cls.imtlgDegenerate /\ E.prefDeg = PrefDeg
+             /\ E.cls.detCol = cls.detCol /\ E.cls.colFull = cls.colFull /\ E.cls.equalNorm = cls.equalNorm
+             \* the driver's own exact ConFIG data (direction, coefficients of the length) are the model's
+             /\ \A q \in 1..Len(E.flt) : E.flt[q].col =>
+                    /\ CfgOn /\ den = 1
+                    /\ LET r == SymConFIG(J, IF E.flt[q].pref THEN P ELSE Ones(M))
+                       IN  E.flt[q].cfg = [y |-> r.y, yy |-> r.yy, d |-> r.d, deg |-> r.deg]
 
 \* predicate-level entries: the model decides whether the relation is demanded
-Excluded(f) == \/ (f.needsRank /\ ~cls.rankUnamb)
+\* ConFIG is compared on dependent rows where the model computes it exactly (independent columns, one row norm)
+CfgDeg(f) == f.col /\ f.cfg.deg /\ ~(f.pref /\ PrefDeg)
+Excluded(f) == \/ (f.needsRank /\ ~cls.rankUnamb /\ ~f.col)
+               \/ CfgDeg(f)
                \/ (f.tie = "mgda1" /\ cls.mgdaTie1)
                \/ (f.tie = "imtlg" /\ cls.imtlgDegenerate)
-ReasonTrue(f) == CASE f.reason = "rank"     -> f.needsRank /\ ~cls.rankUnamb
+ReasonTrue(f) == CASE f.reason = "rank"     -> f.needsRank /\ ~cls.rankUnamb /\ ~f.col
+                   [] f.reason = "cfgzero"  -> CfgDeg(f)
                    [] f.reason = "mgda_tie" -> cls.mgdaTie1
                    [] f.reason = "imtlg"    -> cls.imtlgDegenerate
                    [] f.reason = "threshold" -> TRUE      \* norm_eps bracket: decided by the harness from cls.lamFloor
